@@ -147,6 +147,24 @@ func IntStr(v int64) string { return strconv.FormatInt(v, 10) }
 // FloatStr is the shortest decimal rendering of f (opaque under gosym).
 func FloatStr(f float64) string { return strconv.FormatFloat(f, 'f', -1, 64) }
 
+// AbstractFloatText lets gosym abstract the text of a symbolic float to its
+// shape when its bytes are inspected (crash/shape properties only).
+func AbstractFloatText(on bool) {}
+
+// AbstractFloatArith makes + - * / on symbolic float64 operands return an
+// arbitrary float64 (one per distinct operand pair) under gosym: for
+// properties that do not depend on the numeric value (crashes, shapes).
+func AbstractFloatArith(on bool) {}
+
+// OpaqueParseFloat makes strconv.ParseFloat of symbolic bytes return an
+// arbitrary (value, ok|error) pair under gosym (strconv itself is trusted).
+func OpaqueParseFloat(on bool) {}
+
+// LoopBound is the unwinding bound for loops whose exit test is symbolic:
+// under gosym a path on which one branch instruction is decided
+// symbolically more than k times is cut and counted as outside the claim.
+func LoopBound(k int) {}
+
 // MapOrder asks gosym to fork over map iteration orders from here on.
 func MapOrder(on bool) {}
 
